@@ -52,6 +52,13 @@ def specs(T):
         raise T.Refuse('%s:heterozygous: unexpected numeric literals %r' % (Y, het))
     T.body_contains(U, 'load_het_snps', "(varr['zygosity'] != 0.0) & (varr['n_zygosity'] == 0.0)")
     T.body_contains(U, 'load_het_snps', 'varr.zygosity_from_freq(zygosity_freq, 1 - zygosity_freq)')
+    # the decision table of load_het_snps (Props C18_load_het_table): when the automatic zygosity_freq applies
+    T.body_contains(U, 'load_het_snps',
+                    "if zygosity_freq is None and 'n_zygosity' in varr and (not varr['n_zygosity'].any()):")
+    # the default summary function of baf_by_ranges / the one of het_frac_by_ranges (Model/VBaf.v nanmedian_x, het_frac_value)
+    if ast.unparse(T.default_node(Y, 'VariantArray.baf_by_ranges', 'summary_func')) != 'np.nanmedian':
+        raise T.Refuse('%s:baf_by_ranges: the default summary_func is no longer np.nanmedian' % Y)
+    T.body_contains(Y, 'VariantArray.het_frac_by_ranges', "cnarr.into_ranges(ranges, 'is_het', np.nan, np.nanmean)")
     return {'VcfDefaults': [
         # _extract_genotype: zygosity values, and the comparisons that choose them
         ('zyg_het', 'Q', T.local(V, '_extract_genotype', 'zygosity', 0)),
